@@ -55,6 +55,7 @@ def _invoke(case, c, operands):
     b = basis_obj(case.get("basis", "enum:XAIG"))
     be = case.get("big_endian", False)
     flags = {}
+    it = (lambda x: iter(list(x))) if gencommon.one_shot(case) else (lambda x: x)  # noqa: E731
 
     def levels(labels):
         labels = list(labels)
@@ -64,35 +65,35 @@ def _invoke(case, c, operands):
     if fn in ("add_sum_n_bits", "add_sum_n_bits_easy"):
         ops = operands[0]
         if fn == "add_sum_n_bits":
-            res = A.add_sum_n_bits(c, ops, basis=b, big_endian=be)
+            res = A.add_sum_n_bits(c, it(ops), basis=b, big_endian=be)
         else:
-            res = A.add_sum_n_bits_easy(c, ops, big_endian=be)
+            res = A.add_sum_n_bits_easy(c, it(ops), big_endian=be)
         return levels(res), [(0, l) for l in ops], flags
     if fn in ("add_sum2", "add_sum3"):
         ops = operands[0]
-        res = getattr(A, fn)(c, ops)
+        res = getattr(A, fn)(c, it(ops))
         return levels(res), [(0, l) for l in ops], flags
     if fn in ("add_sum_n_weighted_bits", "add_sum_n_weighted_bits_naive"):
         ops = operands[0]
         pw = list(zip(case["weights"], ops))
-        res = getattr(A, fn)(c, pw, basis=b)
+        res = getattr(A, fn)(c, it(pw) if fn == "add_sum_n_weighted_bits_naive" else pw, basis=b)  # only the naive variant is declared Iterable (the other documents a list)
         return [(lev, lab) for lev, lab in res], pw, flags
     if fn == "add_sum_two_numbers":
         a, bb = operands
-        res = A.add_sum_two_numbers(c, a, bb, big_endian=be)
+        res = A.add_sum_two_numbers(c, it(a), it(bb), big_endian=be)
         na, nb = len(a), len(bb)
         ins = [((na - 1 - i) if be else i, l) for i, l in enumerate(a)] + [((nb - 1 - i) if be else i, l) for i, l in enumerate(bb)]
         return levels(res), ins, flags
     if fn == "add_sum_two_numbers_with_shift":
         a, bb = operands
         sh = case["shift"]
-        res = A.add_sum_two_numbers_with_shift(c, sh, a, bb, big_endian=be)
+        res = A.add_sum_two_numbers_with_shift(c, sh, it(a), it(bb), big_endian=be)
         na, nb = len(a), len(bb)
         ins = [((na - 1 - i) if be else i, l) for i, l in enumerate(a)] + [(((nb - 1 - i) if be else i) + sh, l) for i, l in enumerate(bb)]
         return levels(res), ins, flags
     if fn == "add_sum_pow2_m1":
         ops = operands[0]
-        res = A.add_sum_pow2_m1(c, ops, big_endian=be, basis=b)
+        res = A.add_sum_pow2_m1(c, it(ops), big_endian=be, basis=b)
         out = []
         for k, labs in enumerate(res):
             for l in labs:
